@@ -502,6 +502,11 @@ func toFloatPair(x, y any) (float64, float64, bool) {
 func toInt(v any) (int, bool, bool) {
 	switch v := v.(type) {
 	case decimal128.Decimal:
+		if !decimal128.Trunc(v).Equal(v) {
+			// Not an integer (or not a number at all).
+			return 0, true, false
+		}
+
 		i, ok := v.Int64()
 		if !ok {
 			return 0, true, false
